@@ -116,6 +116,10 @@ namespace Dune
       template<typename T>
       T* allocate(size_type n)
       {
+        // refuse requests whose size in bytes (including the two extra
+        // pages) cannot be represented; the computations below would wrap
+        if (n > (size_type(-1) - 2 * size_type(page_size)) / sizeof(T))
+          throw std::bad_alloc();
         // setup chunk info
         AllocationInfo ai(typeid(T));
         ai.size = n;
